@@ -361,11 +361,168 @@ def check_f2i(ck, gvh, oracle, tier):
         ck.violation("platform assumption on int64(float64) does not hold: %s" % (bad[:1],),
                      {"kind": "Go!=IM", "correspondence": "Go≈IM/num f2i", "first": bad[:3]}, no_input=True)
 
+# ----------------------------------------------------------------------------- numeral strings
+def gen_numeral(rng):
+    """A valid Lua numeral (no sign, no spaces) from the grammar of manual §3.1; returns (text, tag)."""
+    k = rng.below(10)
+    digs = lambda n, alpha="0123456789": "".join(rng.choice(alpha) for _ in range(n))
+    if k < 2:
+        return rng.choice(["0", "1", "7", "10", "255", "4294967296", "9007199254740993", "9223372036854775807", "9223372036854775808",
+                           "9223372036854775809", "18446744073709551615", "18446744073709551616", "00012", "123456789012345678901234567890"]), "dec-int-edge"
+    if k == 2:
+        return digs(1 + rng.below(22)), "dec-int"
+    if k == 3:
+        h = "0123456789abcdefABCDEF"
+        return rng.choice(["0x", "0X"]) + digs(1 + rng.below(20), h), "hex-int"
+    if k == 4:
+        return rng.choice(["0x7fffffffffffffff", "0x8000000000000000", "0xffffffffffffffff", "0x10000000000000000", "0xfffffffffffffffff", "0x0", "0X00000000000000000001"]), "hex-int-edge"
+    if k < 7:
+        a, b = digs(rng.below(19)), digs(rng.below(19))
+        if not a and not b:
+            a = "0"
+        t = a + ("." + b if (b or rng.chance(1, 2)) else "")
+        if rng.chance(1, 2) or "." not in t:
+            t += rng.choice("eE") + rng.choice(["", "+", "-"]) + str(rng.choice([0, 1, 2, 10, 15, 16, 17, 22, 23, 100, 300, 307, 308, 309, 323, 324, 325, 400, rng.below(400)]))
+        return t, "dec-float"
+    if k == 7:
+        return rng.choice(["1e308", "1.7976931348623157e308", "1.7976931348623159e308", "2.2250738585072014e-308", "2.2250738585072011e-308", "4.9e-324", "2.4703282292062327e-324",
+                           "2.4703282292062328e-324", "9007199254740993.0", "9007199254740992.5", "0.1", "0.3", "1e23", "8.41e21", "9223372036854775807.0", "9223372036854775808.0",
+                           "1e-400", "1e400", "0.5e0", ".5", "5.", "3.14159", "0e0", "0.0"]), "dec-float-edge"
+    h = "0123456789abcdefABCDEF"
+    a, b = digs(rng.below(16), h), digs(rng.below(16), h)
+    if not a and not b:
+        a = "1"
+    t = rng.choice(["0x", "0X"]) + a + ("." + b if (b or rng.chance(1, 3)) else "")
+    if rng.chance(2, 3) or "." not in t:
+        t += rng.choice("pP") + rng.choice(["", "+", "-"]) + str(rng.choice([0, 1, 4, 52, 53, 63, 64, 1023, 1024, 1074, 1075, rng.below(1100)]))
+    return t, "hex-float"
+
+
+def mutate(rng, t):
+    k = rng.below(16)
+    if k == 0:
+        return rng.choice(["+", "-"]) + rng.choice(["+", "-"]) + t, "double-sign"
+    if k == 1:
+        i = rng.below(len(t) + 1)
+        return t[:i] + "_" + t[i:], "underscore"
+    if k == 2:
+        return rng.choice(["0x", "0X", "0x.", "0xp1", "0x.p1", "-0x", "0xg"]), "hex-no-digits"
+    if k == 3:
+        return t + rng.choice(["e", "E", "e+", "p", "p-", "e1e1", "e1.5"]), "bad-exponent"
+    if k == 4:
+        return rng.choice(["inf", "nan", "Inf", "NaN", "-inf", "infinity", "+Infinity", "-nan", "nan(1)", "0xinf", "1n", "in"]), "inf-nan"
+    if k == 5:
+        i = rng.below(len(t) + 1)
+        return t[:i] + rng.choice([" ", "\t"]) + t[i:] if len(t) > 1 else " ", "inner-space"
+    if k == 6:
+        return rng.choice([" ", "\t", "\n", "\v", "\f", "\r", "  "]) + rng.choice(["", "-", "+"]) + t + rng.choice(["", " ", "\n", "\t \r"]), "spaces-sign"
+    if k == 7:
+        return rng.choice(["\u00a0", "\u0085", "\u2003", "\u3000", "\ufeff"]) + t, "unicode-space"
+    if k == 8:
+        return t + rng.choice(["\0", "x", ".", "..", "f", "L", "u", "ll", "d", "#", "\u00a0"]), "trailing-junk"
+    if k == 9:
+        return rng.choice(["-", "+"]) + t, "signed"
+    if k == 10:
+        return rng.choice(["", " ", "-", "+", ".", "e1", "- 1", "-\t1", "0b101", "0o17", "1,5", "١٢٣", "1e1_0", "0x1_0", "1__0", "_1", "1_", "0_1", "0x_1", "1_000.5", "1.5_5", "1_0e1", "0x1_0p1"]), "misc"
+    if k == 11:
+        return "-" + rng.choice(["9223372036854775808", "9223372036854775809", "0x8000000000000000", "0", "0.0", "0x0p0", "0e5"]), "neg-edge"
+    return t, "valid"
+
+
+def check_str(ck, gvh, oracle, tier):
+    n = 4000 if tier == "quick" else 300000
+    cases = []   # (text bytes, tag, is_valid_numeral)
+    fixed = ["+-5", "-+5", "--5", "++5", "+5", "9223372036854775808", "-9223372036854775808", "1_0.5", "1_0e1", "0x1_0p0", "10", " 10 ", "0x10", "1e1"]
+    for t in fixed:
+        cases.append((t.encode(), "fixed", False))
+    for i in range(n):
+        t, tag = gen_numeral(ck.rng)
+        cases.append((t.encode(), tag, True))
+        if i % 2 == 0:
+            m, mtag = mutate(ck.rng, t)
+            cases.append((m.encode("utf-8"), "mut:" + mtag, False))
+    lines = ["s%d %s" % (i, (b.hex() or "-")) for i, (b, _, _) in enumerate(cases)]
+    # tonumber(s, base)
+    bcases = []
+    alnum = "0123456789abcdefghijklmnopqrstuvwxyzABCDEFGHIJKLMNOPQRSTUVWXYZ"
+    for i in range(n // 2):
+        base = ck.rng.choice([2, 8, 10, 16, 36, 2 + ck.rng.below(35)])
+        body = "".join(ck.rng.choice(alnum[:base] if ck.rng.chance(5, 6) else alnum) for _ in range(1 + ck.rng.geometric(8, 70)))
+        t = ck.rng.choice(["", "", " ", "\t"]) + ck.rng.choice(["", "", "-", "+", "+-", "--"]) + body + ck.rng.choice(["", "", " ", "\n", "x", "."])
+        if ck.rng.chance(1, 20):
+            t = ck.rng.choice(["", " ", "-", "+", "- 1", "1 1", "7fffffffffffffff", "8000000000000000", "ffffffffffffffffff", "-8000000000000000", "1e1", "1.0", "0x10"])
+        bcases.append((t.encode(), base))
+    blines = ["b%d %s %d" % (i, (b.hex() or "-"), base) for i, (b, base) in enumerate(bcases)]
+    (rc, impl, err), (mrc, model, merr) = run_both(gvh, oracle, "str", lines + blines, nsplit=2)
+    if rc != 0 or len(impl) != len(lines) + len(blines) or mrc != 0 or len(model) != len(impl):
+        ck.violation("gvh-num/oracle str crashed (%d, %d of %d lines)" % (len(impl), len(model), len(lines) + len(blines)),
+                     {"kind": "crash", "stderr": (err + merr)[-2000:]}, no_input=(rc == 0))
+        return
+    nbad = 0
+    rep = {}
+
+    def report(key, summary, line, g, m):
+        nonlocal nbad
+        nbad += 1
+        if rep.setdefault(key, 0) < 2:
+            rep[key] += 1
+            ck.violation(summary, {"kind": "Go!=S", "engine": "num", "mode": "str", "line": line, "impl": g, "model": m,
+                                   "theorems": ["Num/StrSpec.v s_str2number (manual §3.1, §3.4.3)"]})
+    for i, (b, tag, valid) in enumerate(cases):
+        _, g = parse_fields(impl[i])
+        _, m = parse_fields(model[i])
+        S = m["S"]
+        text = b.decode("utf-8", "replace")
+        ck.count("str:" + tag)
+        ck.count("str-result:" + S[0])
+        ck.case("str " + b.hex(), True)
+        for field, what in (("D", "runtime.StringToNumber"), ("T", "tonumber")):
+            go = g[field]
+            if go == S:
+                continue
+            k = None
+            stripped = text.strip(" \t\n\v\f\r")
+            if len(stripped) >= 2 and stripped[0] == "+" and stripped[1] in "+-" and S == "N":
+                k = ck.known_match(lambda k: k["id"] == "C02-tonumber-double-sign")
+            elif "_" in text and S == "N":
+                k = ck.known_match(lambda k: k["id"] == "C02-tonumber-underscore")
+            elif any(ord(c) > 127 for c in text) and S == "N":
+                k = ck.known_match(lambda k: k["id"] == "C02-tonumber-unicode-space")
+            elif S == "N" and stripped.lstrip("+-")[:2] in ("0x", "0X") and len(stripped.lstrip("+-")) > 18 and not any(c in stripped for c in ".pP"):
+                k = ck.known_match(lambda k: k["id"] == "C02-hex-long-prefix-ignored")
+            if k is not None:
+                ck.known_finding(k)
+            else:
+                report(field + ":" + tag, "%s(%r) = %s on the implementation, the manual's numeral syntax gives %s" % (what, text, go, S), lines[i].split(" ", 1)[1], impl[i], model[i])
+        if valid:
+            go = g["L"]
+            if go != S:
+                if S[0] == "F" and text.isdigit() and M63 <= int(text) < M64 and go == I(int(text) - M64) and \
+                        ck.known_match(lambda k: k["id"] == "C02-literal-2p63-integer"):
+                    ck.known_finding(ck.known_match(lambda k: k["id"] == "C02-literal-2p63-integer"))
+                else:
+                    report("L:" + tag, "the literal %s evaluates to %s, the manual's numeral rules give %s" % (text, go, S), lines[i].split(" ", 1)[1], impl[i], model[i])
+    for j, (b, base) in enumerate(bcases):
+        i = len(lines) + j
+        _, g = parse_fields(impl[i])
+        _, m = parse_fields(model[i])
+        ck.count("tonumber-base:%s" % ("2" if base == 2 else "10" if base == 10 else "16" if base == 16 else "36" if base == 36 else "other"))
+        ck.case("tonumber %s %d" % (b.hex(), base), True)
+        if g["T"] != m["S"]:
+            text = b.decode("utf-8", "replace")
+            report("B", "tonumber(%r, %d) = %s on the implementation, the manual gives %s" % (text, base, g["T"], m["S"]), blines[j].split(" ", 1)[1], impl[i], model[i])
+    ck.sample({"str": cases[20][0].decode("utf-8", "replace"), "impl": impl[20].split(" ", 1)[1][:120], "model": model[20].split(" ", 1)[1]})
+    ck.cov["str_cases"] = len(cases)
+    ck.cov["tonumber_base_cases"] = len(bcases)
+    ck.cov["str_Go!=S"] = nbad
+
 
 def run(tier, seed):
     ck = vlib.Check("C02", tier, seed, level="proof")
     ok_obl = ck.obligations(PROP, clean=False)
-    gvh, err = ck.build_gvh(pkg="./cmd/gvh-num", name="gvh_num")
+    # VERIF_NUM_OVERLAY / VERIF_NUM_TAG: mutation experiments only (go build -overlay, separate binary name)
+    gvh, err = ck.build_gvh(pkg="./cmd/gvh-num", name="gvh_num" + os.environ.get("VERIF_NUM_TAG", ""),
+                            overlay=os.environ.get("VERIF_NUM_OVERLAY"))
     if gvh is None:
         ck.violation("harness does not build against /repo", {"kind": "build", "stderr": err[-3000:]}, no_input=True)
         return ck.finish("n/a", TRUSTED, [])
@@ -375,11 +532,7 @@ def run(tier, seed):
         return ck.finish("n/a", TRUSTED, [])
     check_f2i(ck, gvh, oracle, tier)
     check_ops(ck, gvh, oracle, tier)
-    try:
-        from lib.props import C02_str
-        C02_str.check_str(ck, gvh, oracle, tier)
-    except ImportError:
-        pass
+    check_str(ck, gvh, oracle, tier)
     if not ok_obl:
         ck.violation("proof obligations of C02 no longer check: " + str(ck.cov.get("obligation_failure", ""))[:300],
                      {"kind": "proof", "theorem_file": PROP, "detail": ck.cov.get("obligation_failure")}, no_input=True)
